@@ -45,6 +45,8 @@ class Spec(core.PropSpec):
                 ops.append(["clobber", ro.choice(["A", "B"]), ro.choice(["py", "np", "torch", "advance"]), ro.randint(0, 999)])
             elif r < 0.35:
                 ops.append(["pickle", ro.choice(["A", "B"])])
+            elif r < 0.45:
+                ops.append(["migrate", ro.choice(["A", "B"])])
             ops.append(["call"])
         if ro.random() < 0.4:
             ops.append(["reinject"])
@@ -101,6 +103,7 @@ class Spec(core.PropSpec):
             out.count("unconstructible")
             return vio
         injected = False
+        migrations = {}
         j = 0
         era = 0
         first_era = {}
@@ -130,6 +133,17 @@ class Spec(core.PropSpec):
                 elif op[0] == "clobber":
                     procs[op[1]].clobber(op[2], op[3])
                     out.count("fault:ambient_rng_clobber")
+                    extras += 1
+                elif op[0] == "migrate":
+                    # the seeded object is shipped to another process (a spawned worker, a subprocess): pickled here, used there
+                    side = op[1]
+                    with procs[side].on_cpu():
+                        blob = __import__("pickle").dumps(T[side])
+                    migrations[side] = migrations.get(side, 0) + 1
+                    procs[side] = SimProcess(f"{side}-migrated{migrations[side]}", plan["amb" + side] + 7919 * migrations[side])
+                    with procs[side].on_cpu():
+                        T[side] = __import__("pickle").loads(blob)
+                    out.count("fault:migration_to_another_process")
                     extras += 1
                 elif op[0] == "pickle":
                     with procs[op[1]].on_cpu():
